@@ -33,6 +33,8 @@ def _call(fn_name, payload):
         r = fn(payload, _TIER, _SEED)
         if not isinstance(r, Result):
             raise TypeError(f'{fn_name} returned {type(r)}')
+        for v in r.violations.values():
+            v['_origin'] = (fn_name, payload)  # where it was seen: fallback for witnesses that need the cases run before them
         return r
     except BaseException:
         r = Result(_SEED)
@@ -68,8 +70,50 @@ def _default_run(mod, ctx):
 
 
 def _sigs_of(mod, case, tier, seed):
+    if isinstance(case, dict) and case.get('kind') == 'shard-replay':
+        r = getattr(mod, case['fn'])(case['shard'], tier, seed)
+        for full in list(r.violations):
+            if full != case['signature']:
+                del r.violations[full]
+        return sorted(r.violations), r
     r = mod.replay(case, tier, seed)
     return sorted(r.violations), r
+
+
+def _isolated(fn, *args):
+    """fn(*args) in a forked child of this (so far idle) process: replays do not see each other's leftovers"""
+    import pickle
+
+    rfd, wfd = os.pipe()
+    pid = os.fork()
+    if pid == 0:
+        code = 0
+        try:
+            os.close(rfd)
+            try:
+                out = ('ok', fn(*args))
+            except BaseException:
+                out = ('err', traceback.format_exc()[-1500:])
+            with os.fdopen(wfd, 'wb') as f:
+                pickle.dump(out, f)
+        except BaseException:
+            code = 3
+        finally:
+            os._exit(code)
+    os.close(wfd)
+    with os.fdopen(rfd, 'rb') as f:
+        data = f.read()
+    os.waitpid(pid, 0)
+    if not data:
+        raise RuntimeError('isolated replay died')
+    kind, val = pickle.loads(data)
+    if kind == 'err':
+        raise RuntimeError(val)
+    return val
+
+
+def _isolated_sigs(mod, case, tier, seed):
+    return _isolated(lambda: _sigs_of(mod, case, tier, seed)[0])
 
 
 def run(pid, tier, seed, repo, workers=0, only=None):
@@ -96,22 +140,39 @@ def run(pid, tier, seed, repo, workers=0, only=None):
     for full in sorted(res.violations):
         v = res.violations[full]
         try:
-            s1, _ = _sigs_of(mod, v['case'], tier, seed)
-            s2, _ = _sigs_of(mod, v['case'], tier, seed)
+            s1 = _isolated_sigs(mod, v['case'], tier, seed)
+            s2 = _isolated_sigs(mod, v['case'], tier, seed)
         except BaseException:
             res.error(f'replay of {full} crashed: ' + traceback.format_exc()[-800:])
             continue
         if s1 != s2 or full not in s1:
-            res.error(f'witness of {full} does not replay deterministically: {s1} / {s2}')
-            continue
+            # not reproducible on its own: does it reproduce, twice, when the cases explored before it in the same shard run first?
+            # (then the library keeps state between calls, and the recorded artefact is the shard)
+            origin = v.get('_origin')
+            ok = False
+            if origin and full not in s1 and full not in s2:
+                shard_case = {'kind': 'shard-replay', 'fn': origin[0], 'shard': origin[1], 'signature': full, 'seen_at': v['case']}
+                try:
+                    t1 = _isolated_sigs(mod, shard_case, tier, seed)
+                    t2 = _isolated_sigs(mod, shard_case, tier, seed)
+                    ok = t1 == t2 == [full]
+                except BaseException:
+                    ok = False
+                if ok:
+                    v = dict(v, case=shard_case, note=(v.get('note') or '') + '\n[the case alone passes in a fresh process; it fails, reproducibly, '
+                             'after the cases explored before it in its shard: the outcome depends on calls made earlier in the process]')
+                    res.violations[full] = v
+            if not ok:
+                res.error(f'witness of {full} does not replay deterministically: {s1} / {s2}')
+                continue
         if full in known:
             known_seen.append(full)
         else:
             unlisted.append(full)
     for c in res.samples:
         try:
-            a, _ = _sigs_of(mod, c, tier, seed)
-            b, _ = _sigs_of(mod, c, tier, seed)
+            a = _isolated_sigs(mod, c, tier, seed)
+            b = _isolated_sigs(mod, c, tier, seed)
             if a != b:
                 res.error(f'sample does not replay deterministically: {jdump(c)[:200]}')
         except BaseException:
@@ -177,9 +238,9 @@ def run(pid, tier, seed, repo, workers=0, only=None):
     )
     if stale and not only:
         print(f'note: {len(stale)} known: line(s) of {pid} not observed in this tier: ' + '; '.join(stale)[:400])
-    if res.errors:
-        return 2
-    return 1 if unlisted else 0
+    if unlisted:
+        return 1  # each listed violation was reproduced twice, whatever else went wrong
+    return 2 if res.errors else 0
 
 
 def replay(pid, path, repo):
